@@ -1,0 +1,41 @@
+//! Verification hooks, compiled only with the cargo feature `verif_hooks`.
+//! They are no-ops unless a harness installs a callback.
+use parking_lot::RwLock;
+use std::sync::Arc;
+
+pub type SchedCallback = Arc<dyn Fn(&'static str, u64) + Send + Sync + 'static>;
+
+lazy_static! {
+    static ref SCHED_CB: RwLock<Option<SchedCallback>> = RwLock::new(None);
+    static ref EPOCH_OVERRIDE: RwLock<Option<(u64, Vec<String>)>> = RwLock::new(None);
+}
+
+pub fn install_sched(cb: SchedCallback) {
+    *SCHED_CB.write() = Some(cb);
+}
+
+pub fn clear_sched() {
+    *SCHED_CB.write() = None;
+}
+
+/// Called right before a shared-memory access named `label`.
+/// `val` carries a cheap scalar (e.g. a task id or a loaded value) for trace logging.
+pub fn sched_point(label: &'static str, val: u64) {
+    let cb = SCHED_CB.read().clone();
+    if let Some(cb) = cb {
+        cb(label, val);
+    }
+}
+
+pub fn set_epoch_override(v: Option<(u64, Vec<String>)>) {
+    *EPOCH_OVERRIDE.write() = v;
+}
+
+/// Replaces the result of `fetch_max_epoch` (obtained over TCP in production)
+/// when a harness installed an override.
+pub fn epoch_override(max_epoch: u64, failed_addresses: Vec<String>) -> (u64, Vec<String>) {
+    match EPOCH_OVERRIDE.read().clone() {
+        Some(v) => v,
+        None => (max_epoch, failed_addresses),
+    }
+}
